@@ -21,6 +21,7 @@ element→model while check_references holds model→element); OS scheduling, `p
 constant are outside the model.
 -/
 import AutosarVerif.Lemmas.LocksOrder
+import AutosarVerif.Lemmas.LocksSearch
 
 namespace AV.C15
 open AV.Locks
@@ -44,5 +45,34 @@ example : noDeadlock [reader, reader] = true := by decide +kernel
 def writerUp : Prog := [.acq 1 .write, .acq 0 .write, .rel 0 .write, .rel 1 .write]
 example : ordered writerUp = false := by decide
 example : (deadlockSearch [writerUp, reader]).1.isSome = true := by decide +kernel
+
+
+/-! ### added in the third session (proof packs LK, SR): restated by name
+(`type_of%` keeps the statement identical to the lemma; the signature is quoted in the comment) -/
+
+/-- **the exhaustive search means what it says (1)**: a state the search returns is reachable by the lock programs and is a deadlock (no thread can step, not all finished)
+`theorem deadlockSearch_sound (ps : List Prog) (s : Sys) (b : Bool) (h : deadlockSearch ps = (some s, b)) : Reach ps s ∧ isDeadlock s = true` -/
+theorem C15_search_found_deadlock_is_real : type_of% @AV.Locks.deadlockSearch_sound := @AV.Locks.deadlockSearch_sound
+
+/-- **(2)**: when the search ends within its fuel without a deadlock, NO reachable state of the lock programs is a deadlock (worklist invariant: every successor of a visited state is visited or queued; the visited set is closed and contains the initial state)
+`theorem noDeadlock_complete (ps : List Prog) (h : noDeadlock ps = true) (s : Sys) (hr : Reach ps s) : isDeadlock s = false` -/
+theorem C15_search_clean_answer_is_complete : type_of% @AV.Locks.noDeadlock_complete := @AV.Locks.noDeadlock_complete
+
+/-- in the words of the property: from every reachable state that is not finished some thread can take a step
+`theorem noDeadlock_progress (ps : List Prog) (h : noDeadlock ps = true) (s : Sys) (hr : Reach ps s) (hnf : finished s = false) : ∃ i s', stepTh s i = some s'` -/
+theorem C15_search_clean_answer_every_call_proceeds : type_of% @AV.Locks.noDeadlock_progress := @AV.Locks.noDeadlock_progress
+
+/-- the three possible answers: a real deadlock; none exists; fuel exhausted (says nothing, never wrong)
+`theorem deadlockSearch_cases (ps : List Prog) : (∃ s, deadlockSearch ps = (some s, true) ∧ Reach ps s ∧ isDeadlock s = true) ∨ (deadlockSearch ps = (none, true) ∧ noDeadlock ps = true ∧ ∀ s, Reach ps s → isDeadlock s = false) ∨ (deadlockSearch ps = (none, false) ∧ noDeadlock ps = false)` -/
+theorem C15_search_trichotomy : type_of% @AV.Locks.deadlockSearch_cases := @AV.Locks.deadlockSearch_cases
+
+/-- `theorem deadlockSearch_exhaustive_iff (ps : List Prog) (hex : (deadlockSearch ps).2 = true) : (deadlockSearch ps).1.isSome = true ↔ ∃ s, Reach ps s ∧ isDeadlock s = true` -/
+theorem C15_search_decides_when_exhaustive : type_of% @AV.Locks.deadlockSearch_exhaustive_iff := @AV.Locks.deadlockSearch_exhaustive_iff
+
+/-- `theorem ordered_search_agrees (ps : List Prog) (hord : ∀ p, p ∈ ps → ordered p = true ∧ endsEmpty p [] = true) : (deadlockSearch ps = (none, true) ∨ deadlockSearch ps = (none, false)) ∧ (noDeadlock ps = true → ∀ s, Reach ps s → isDeadlock s = false) ∧ (∀ s, Reach ps s → isDeadlock s = false)` -/
+theorem C15_search_agrees_with_ordered_discipline : type_of% @AV.Locks.ordered_search_agrees := @AV.Locks.ordered_search_agrees
+
+/-- `theorem noDeadlock_exact (ps : List Prog) (h : noDeadlock ps = true) : ∃ S : List Sys, S.Nodup ∧ (∀ s, s ∈ S ↔ Reach ps s) ∧ (∀ s, s ∈ S → isDeadlock s = false) ∧ 1 + transitions S ≤ 200000` -/
+theorem C15_search_visits_exactly_the_reachable_states : type_of% @AV.Locks.noDeadlock_exact := @AV.Locks.noDeadlock_exact
 
 end AV.C15
